@@ -70,6 +70,17 @@ def transforms(case, rng):
     return out
 
 
+DIRECTED = [
+    ('@fp.fpy\ndef f(xss, yss):\n    return [a for a, b in zip(xss, yss) for a in b]\n', ('LL', 'LL')),
+    ('@fp.fpy\ndef f(xss, yss):\n    return [sum([a + b for a in a]) for a, b in zip(xss, yss[0])]\n', ('LL', 'LL')),
+    ('@fp.fpy\ndef f(xss, yss):\n    return [i + x for i, x in enumerate(xss[0]) for i in yss[0]]\n', ('LL', 'LL')),
+    ('@fp.fpy\ndef f(xss, yss):\n    return [sum([x + i for x in x]) for i, x in enumerate(xss)]\n', ('LL', 'LL')),
+    ('@fp.fpy\ndef f(xss, yss):\n    s = 0\n    for a, b in zip(xss, yss):\n        s = s + sum([a for a in b]) + sum(a)\n    return s\n', ('LL', 'LL')),
+    ('@fp.fpy\ndef f(xs, ys):\n    return [a * b + sum([b for b in xs]) for a, b in zip(xs, ys)]\n', ('L', 'L')),
+    ('@fp.fpy\ndef f(xs, ys):\n    return [sum([x + i for i in ys]) + i for i, x in enumerate(xs)]\n', ('L', 'L')),
+]
+
+
 def shard(i: int, n: int, tier: str, seed: int) -> Result:
     from ..diff import run_differential
     from ..gen import prog
@@ -85,8 +96,11 @@ def shard(i: int, n: int, tier: str, seed: int) -> Result:
     def inputs(r, p):
         return prog.gen_args(r, p, list_len=r.choice(lengths))
 
+    # comprehension scoping under elim_iter (F71): a later stage that rebinds a zipped / enumerated name, an inner comprehension
+    # whose first iterable reads the outer name its own target shadows
+    directed = [(prog.HEADER + src, types) for (src, types) in DIRECTED][i::n]
     # STRICT variants: a failed divisibility precondition is the documented outcome
-    run_differential(res, PROP, rng, total // n, prof, transforms, ninputs=10, input_hook=inputs,
+    run_differential(res, PROP, rng, total // n, prof, transforms, ninputs=10, input_hook=inputs, directed=directed,
                      ctx_choices=(None, None, fp.MPFloatContext(3), fp.MPFloatContext(3), fp.FP32, fp.MPFixedContext(1)), tag='c08', accept_exc=('ValueError',),
                      strict_ok=True)
     return res
